@@ -36,6 +36,7 @@ TrMaxSizes == {0}
 TrThreads == 0..3
 TrAlphabet == {}
 TrInitConts == {<<>>}
+TrDev == {}
 
 VARIABLES tid, l
 tvars == <<cont, ref, maxsize, initc, owner, loc, gres, ins, dset, dup, gen, done, tid, l>>
